@@ -1,9 +1,11 @@
 package checks
 
 import (
+	"context"
 	"errors"
 	"fmt"
 	"io"
+	"net/http"
 	"sort"
 	"strings"
 
@@ -249,8 +251,9 @@ func c03(run *ev.Run) int {
 				if (si+boolInt(eofWith))%2 == 1 {
 					hextra = append(hextra, connect.WithReadMaxBytes(1<<20))
 				}
-				hl, res := rec.replayRequest(&wire.ScriptedBody{Data: rec.Ex.ReqBody, Chunks: seg, EOFWithData: eofWith}, drainProgram(), hextra...)
-				run.Eval(fmt.Sprintf("%s|req|%s", rec.Name, segClass(seg, len(rec.Ex.ReqBody))))
+				// every third segmentation: the request declares its (true) length
+				hl, res := rec.replayRequestCL(&wire.ScriptedBody{Data: rec.Ex.ReqBody, Chunks: seg, EOFWithData: eofWith}, drainProgram(), si%3 == 2, hextra...)
+				run.Eval(fmt.Sprintf("%s|req|%s|declared=%v", rec.Name, segClass(seg, len(rec.Ex.ReqBody)), si%3 == 2))
 				run.Count("replays.request", 1)
 				if s := handlerOutcome(hl, res, true); s != base2 {
 					run.Violation(key+"/req/segmentation", "handler outcome depends on how the request body is segmented",
@@ -292,6 +295,7 @@ func c03(run *ev.Run) int {
 			}
 		}
 	})
+	c03Non200(run, nrandom)
 	run.Set("exhaustive_bound_bytes", bound)
 	run.Set("bodies", len(all))
 	return run.Finish("replays.response", "replays.request", "bodies.exhaustive")
@@ -313,4 +317,61 @@ func trimInts(s []int) []int {
 		return s[:24]
 	}
 	return s
+}
+
+// c03Non200: responses that are not the protocol's own - a proxy's 502 page, a
+// 404 from a misrouted path, a JSON error from a gateway - reach the client as
+// an error; what the error says must not depend on how the transport cut the
+// body of such a response either.
+func c03Non200(run *ev.Run, nrandom int) {
+	html := []byte("<html><head><title>502 Bad Gateway</title></head><body><center><h1>502 Bad Gateway</h1></center><hr><center>verif-proxy/1.0</center></body></html>\n")
+	js := []byte(`{"code":"unavailable","message":"upstream connect error or disconnect/reset before headers","details":[]}`)
+	type shape struct {
+		name   string
+		status int
+		ct     string
+		body   []byte
+	}
+	shapes := []shape{
+		{"html-502", 502, "text/html", html},
+		{"html-404", 404, "text/html; charset=utf-8", html},
+		{"plain-503", 503, "text/plain", []byte("no healthy upstream")},
+		{"json-429", 429, "application/json", js},
+		{"json-503", 503, "application/json", js},
+		{"octets-500", 500, "application/octet-stream", []byte{0, 0, 0, 0, 3, 'a', 'b', 'c'}},
+	}
+	for _, p := range svc.Protocols {
+		for _, kind := range []svc.Kind{svc.Unary, svc.ServerStream, svc.Bidi} {
+			for _, sh := range shapes {
+				key := fmt.Sprintf("c03/non-200/%s/%s/%s", p, kind, sh.name)
+				if !run.Want(key) {
+					continue
+				}
+				do := func(body *wire.ScriptedBody) string {
+					res := &wire.Result{Status: sh.status, Header: http.Header{"Content-Type": {sh.ct}}, Body: sh.body}
+					cn := &wire.Canned{Respond: func(req *http.Request, _ []byte) (*http.Response, error) {
+						return wire.ResponseFromResult(req, res, body), nil
+					}}
+					cs := svc.NewClientSet(cn, "http://verif.local", svc.ProtoOpts(p, "proto")...)
+					return clientOutcome(cs.Do(context.Background(), kind, "non200", nil, []*gen.Msg{{Id: 3}}), true)
+				}
+				base := do(&wire.ScriptedBody{Data: sh.body})
+				segs, _ := segmentations(run, sh.body, 0, nrandom/5+5, key)
+				for _, seg := range segs {
+					for _, eofWith := range []bool{false, true} {
+						got := do(&wire.ScriptedBody{Data: sh.body, Chunks: seg, EOFWithData: eofWith})
+						run.Eval(fmt.Sprintf("non-200|%s|%s|%s|%s", p, kind, sh.name, segClass(seg, len(sh.body))))
+						run.Count("replays.response", 1)
+						run.Count("replays.response.non_200", 1)
+						if got != base {
+							run.Violation(key+"/segmentation", "what the client reports for a non-200 response depends on how the response body is segmented",
+								map[string]any{"status": sh.status, "content_type": sh.ct, "chunks": trimInts(seg), "eof_with_data": eofWith, "one_piece": base, "segmented": got})
+							goto next
+						}
+					}
+				}
+			next:
+			}
+		}
+	}
 }
